@@ -51,7 +51,7 @@ Alpha(lv, nf, nt, lastop) ==
   \cup {O("wl", 0, 0, 0, ls) : ls \in WlLists(lv)}
   \cup {O("ova", 0, 0, p, <<>>) : p \in (CASE lv = "full" -> {0, 1, 2} [] lv = "mid" -> {0, 1} [] OTHER -> {1})}
   \cup (CASE lv = "full" -> {O("chunk", 1, 0, 0, <<>>), O("chunk", 1, 0, 2, <<>>), O("chunk", 2, 0, 0, <<>>),
-                             O("chunk", 2, 0, 1, <<>>), O("chunk", 3, 0, 0, <<>>), O("chunk", 5, 0, 0, <<>>)}
+                             O("chunk", 2, 0, 1, <<>>), O("chunk", 3, 0, 0, <<>>), O("chunk", 5, 0, 0, <<>>), O("chunk", 0, 0, 0, <<>>)}
           [] lv = "mid"  -> {O("chunk", 1, 0, 1, <<>>), O("chunk", 2, 0, 0, <<>>)}
           [] OTHER       -> {O("chunk", 2, 0, 0, <<>>)})
   \cup {O("titer", 0, 0, p, <<>>) : p \in 0..((IF nt > 2 THEN 2 ELSE nt) - 1)}
@@ -61,12 +61,17 @@ Alpha(lv, nf, nt, lastop) ==
 NextNf(o, nf) == CASE o.op = "boot" -> o.b [] o.op = "bootf" -> o.a [] o.op = "fiter" -> 1 [] OTHER -> nf
 NextNt(o, nt) == IF o.op = "titer" THEN 1 ELSE nt
 
+\* operations that are statically known to be refused end their program: into_single_target of several target
+\* columns (documented panic), sample_chunks(0)
+Final(o, nt) == (o.op = "single" /\ nt # 1) \/ (o.op = "chunk" /\ o.a = 0)
+
 \* all programs of length d (shorter only when no operation applies); sample_iter only as the last operation
 RECURSIVE Progs(_, _, _, _, _)
 Progs(ty, nf, nt, d, lv) ==
   IF d = 0 THEN {<<>>}
   ELSE LET os == {o \in Alpha(lv, nf, nt, "") : Applicable(o.op, ty, nt)} \cup (IF d = 1 THEN {O0("siter")} ELSE {})
-       IN UNION {{<<o>> \o rest : rest \in Progs(ResTy(o.op, ty), NextNf(o, nf), NextNt(o, nt), d - 1, lv)} : o \in os}
+       IN UNION {{<<o>> \o rest : rest \in (IF Final(o, nt) THEN {<<>>}
+                                               ELSE Progs(ResTy(o.op, ty), NextNf(o, nf), NextNt(o, nt), d - 1, lv))} : o \in os}
 
 GenInit ==
   /\ lab = <<>> /\ st = <<>> /\ depth = 0 /\ last = "gen"      \* the design-model variables are not used
